@@ -85,7 +85,7 @@ func init() {
 		Shards: shards(12, 16),
 		Meta: func(tier string) rt.Meta {
 			return rt.Meta{Level: "exploration", MinEvals: 20000, MinDistinct: 100,
-				Rule:        "differential against the kernel and path/filepath (chroot on tmpfs), MemFS only: link graphs over 3 link names + a directory (with a marker child) + a file in /w, each link's target drawn from 18 shapes (sibling, ../w/x, absolute, itself and the other links - 2- and 3-cycles, chains -, missing, through a directory, through another link, '.', '..', '/'); every query path of <= 3 components over the names; the queries Stat/Lstat/ReadFile/ReadDir/EvalSymlinks/Readlink on every path without rebuilding, and 17 mutating calls (each on a freshly rebuilt graph, full tree compared afterwards). Chains of length 1..256 for the loop budget. Quick samples the graph space by seed, thorough enumerates all 18^3 graphs for the queries. Signature = call | pre-state class of the operand (link->file/dir/missing/loop, via-link, ...) | outcome; non-trivial: all (every case has links).",
+				Rule:        "differential against the kernel and path/filepath (chroot on tmpfs), MemFS only: link graphs over 3 link names + a directory (with a marker child) + a file in /w, each link's target drawn from 18 shapes (sibling, ../w/x, absolute, itself and the other links - 2- and 3-cycles, chains -, missing, through a directory, through another link, '.', '..', '/'); every query path of <= 3 components over the names; the queries Stat/Lstat/ReadFile/ReadDir/EvalSymlinks/Readlink on every path without rebuilding, and 17 mutating calls (each on a freshly rebuilt graph, full tree compared afterwards). A family of graphs whose directory names are string prefixes of their siblings (a, ab, abc, /w and /wa) with links leaving a for ab/abc. Chains of length 1..256 for the loop budget. Quick samples the graph space by seed, thorough enumerates all 18^3 graphs for the queries. Signature = call | pre-state class of the operand (link->file/dir/missing/loop, via-link, ...) | outcome; non-trivial: all (every case has links).",
 				Assumptions: []string{"query paths and link targets are lexically clean; unclean spellings are defined by Clean() in C01"}}
 		},
 		Timeout: func(tier string) int {
@@ -153,6 +153,40 @@ func init() {
 					}
 					sr := l.step(o)
 					l.report(0o022, sr, false)
+				}
+			}
+			// names that are string prefixes of their siblings: a link whose target leaves its directory for a sibling
+			// "ab"/"abc" of that directory "a" (or for "/wa" beside "/w") must restart the walk, not continue inside "a"
+			if c.Shard == 1%c.NShards {
+				base := []fsx.Op{{K: "Mkdir", P: "/w", Perm: 0o755}, {K: "Mkdir", P: "/wa", Perm: 0o755}, {K: "WriteFile", P: "/wa/m", Data: "in-wa", Perm: 0o644}}
+				for _, d := range []string{"/w/a", "/w/ab", "/w/abc", "/w/a/b", "/w/a/bc", "/w/a/c", "/w/a/a", "/w/ab/c"} {
+					base = append(base, fsx.Op{K: "Mkdir", P: d, Perm: 0o755}, fsx.Op{K: "WriteFile", P: d + "/m", Data: "in-" + d, Perm: 0o644})
+				}
+				targets := []string{"../ab", "../abc", "/w/ab", "/w/abc", "../../wa", "/wa", "b", "bc", "../a/b", "../a", "/w/a", "../ab/c", "/w/ab/c", "../abc/m", "/wa/m", "../../w/ab", "a", "."}
+				for _, t1 := range targets {
+					for _, t2 := range []string{"", "lk", "../a/lk", "/w/a/lk"} {
+						g := append(append([]fsx.Op{}, base...), fsx.Op{K: "Symlink", P: t1, Q: "/w/a/lk"})
+						if t2 != "" {
+							g = append(g, fsx.Op{K: "Symlink", P: t2, Q: "/w/a/l2"})
+						}
+						if !c04Build(l, g) {
+							continue
+						}
+						c.Rep.Count("prefix_name_graphs", 1)
+						for _, p := range []string{"/w/a/lk", "/w/a/lk/m", "/w/a/lk/c", "/w/a/lk/c/m", "/w/a/l2", "/w/a/l2/m", "/w/a/lk/b/m"} {
+							for _, q := range c04Queries {
+								sr := l.stepQuery(fsx.Op{K: q, P: p})
+								l.report(0o022, sr, false)
+							}
+						}
+						for _, o := range []fsx.Op{{K: "WriteFile", P: "/w/a/lk/new", Data: "n", Perm: 0o644}, {K: "Mkdir", P: "/w/a/lk/nd", Perm: 0o755}, {K: "Chdir", P: "/w/a/lk"}, {K: "Remove", P: "/w/a/lk/m"}} {
+							if !c04Build(l, g) {
+								break
+							}
+							sr := l.step(o)
+							l.report(0o022, sr, false)
+						}
+					}
 				}
 			}
 			// loop budget: chains c0 -> c1 -> ... -> f
